@@ -240,17 +240,11 @@ _set_setstate(Bucket *self, PyObject *args)
     if ((l=PyTuple_Size(items)) < 0)
         return -1;
 
-    for (i=self->len; --i >= 0; )
-    {
-        DECREF_KEY(self->keys[i]);
-    }
-    self->len=0;
-
-    if (self->next)
-    {
-        Py_DECREF(self->next);
-        self->next=0;
-    }
+    /* Drop the current contents (detached before they are released, see
+     * _bucket_clear).
+     */
+    if (_bucket_clear(self) < 0)
+        return -1;
 
     if (l > self->size)
     {
